@@ -217,3 +217,49 @@ func (c *VCtx) lmLookup(sc *Scope, name string) (Val, bool) {
 	}
 	return nil, false
 }
+
+// pubCellCheck: a captured variable declared "published ... by <chan> token <map>" is written only by the
+// holder of the token before the channel is closed, and read only by the holder or after the close.
+func (c *VCtx) pubCellCheck(fr *Frame, st *State, l *Loc, write bool, pos token.Pos) {
+	if c.pubCells == nil || c.contract == nil || l.Base == nil || c.pubCells[l.Base.S] == nil {
+		return
+	}
+	top := c.curTopFrame(fr)
+	if top == nil {
+		return
+	}
+	sc := &Scope{c: c, vars: map[string]Val{}, st: st, old: st, fr: top, pkg: fnPkgPath(top.fn), exitOf: top.curBlock}
+	if c.me != nil {
+		sc.vars["me"] = c.me
+	}
+	chE, err := ParseExpr(c.contract.PubChan)
+	if err != nil {
+		unsup("published: %v", err)
+	}
+	ch := c.asTerm(c.translate(sc, chE))
+	tokE, _ := ParseExpr(c.contract.PubToken + "(" + c.contract.PubChan + ") == me")
+	mine := c.translateBool(sc, tokE)
+	what := "read"
+	goal := Or(c.isClosed(st, ch), mine)
+	if write {
+		what = "write"
+		goal = And(mine, Not(c.isClosed(st, ch)))
+	}
+	name := ""
+	for _, f := range top.fn.FreeVars {
+		if lf, ok := top.env[f].(*Loc); ok && lf.Base != nil && lf.Base.S == l.Base.S {
+			name = f.Name()
+		}
+	}
+	c.prove("own.published."+name, fmt.Sprintf("%s of captured variable %s at %s follows the publication discipline (token holder before close(%s), anybody after)", what, name, c.eng.pos(pos), c.contract.PubChan), st.pc, goal, nil)
+	c.obls[len(c.obls)-1].Props = c.ownProps()
+}
+
+func (c *VCtx) curTopFrame(fr *Frame) *Frame {
+	for f := fr; f != nil; f = f.parent {
+		if f.top {
+			return f
+		}
+	}
+	return nil
+}
